@@ -97,8 +97,27 @@ def split_observations(pid, case, observations, ctx=None):
 
 
 def run_filtered(mod, case, ctx):
-    observations = mod.run_case(case, ctx) or []
+    observations = run_case_env(mod, case, ctx)
     return split_observations(mod.ID, case, observations, ctx)
+
+
+def run_case_env(mod, case, ctx):
+    """run one case; a case marked `_dbg` runs with DEBUG enabled for the library's loggers (an
+    answer-neutral circumstance: the handlers still filter the output)"""
+    if isinstance(case, dict) and case.get("_dbg"):
+        import logging
+        lg = logging.getLogger("inference")
+        lg2 = logging.getLogger("parser")
+        lg.setLevel(logging.DEBUG)
+        lg2.setLevel(logging.DEBUG)
+        try:
+            if ctx is not None:
+                ctx.stratum("circumstance:debug-logging")
+            return mod.run_case(case, ctx) or []
+        finally:
+            lg.setLevel(logging.NOTSET)
+            lg2.setLevel(logging.NOTSET)
+    return mod.run_case(case, ctx) or []
 
 
 # --------------------------------------------------------------------------------------
@@ -154,6 +173,8 @@ def worker_main(args):
             state["skipped"] += 1
             return
         ctx.cases += 1
+        if isinstance(case, dict) and "_dbg" not in case and int(gen.case_hash(case), 16) % 12 == 0:
+            case = dict(case, _dbg=True)      # every twelfth case (by hash) runs with DEBUG logging on
         with open(args.out + ".last", "w") as fd:  # survives a hard crash of this process
             json.dump(case, fd)
         unknown, _ = run_filtered(mod, case, ctx)
@@ -219,7 +240,7 @@ def regress(mod, ctx):
             rec = json.load(fd)
         case = rec["case"]
         sub = Ctx(record=False)
-        observations = mod.run_case(case, sub) or []
+        observations = run_case_env(mod, case, sub)
         unknown, known = split_observations(mod.ID, case, observations, ctx)
         res.append({
             "file": f"regressions/{mod.ID}/{name}",
@@ -243,10 +264,10 @@ def replay_main(args):
     for h in rec.get("history") or []:
         # the failure depends on what this interpreter ran before: replay that history first
         try:
-            mod.run_case(h, Ctx(record=False))
+            run_case_env(mod, h, Ctx(record=False))
         except Exception:
             pass
-    observations = mod.run_case(case, ctx) or []
+    observations = run_case_env(mod, case, ctx)
     unknown, known = split_observations(mod.ID, case, observations)
     print(f"replay {args.replay}: {len(observations)} observation(s)")
     if hasattr(mod, "describe"):
